@@ -45,6 +45,32 @@ def _outcome(thunk):
         return ("raise", type(e).__name__, str(e)[:160])
 
 
+class CallDidNotReturn(BaseException):
+    """Raised inside an API call by the wall-clock guard: the call ran for longer than any legitimate call on
+    inputs of this size could (an endless loop in the library).  Reported as an outcome of the call, and only
+    believed if the replay in a fresh process hangs the same way."""
+
+
+def guarded(thunk, seconds=90):
+    """_outcome with a wall-clock guard (main thread only; SIGALRM)."""
+    import signal
+    import threading
+
+    if threading.current_thread() is not threading.main_thread() or not hasattr(signal, "SIGALRM"):
+        return _outcome(thunk)
+
+    def on_alarm(signum, frame):
+        raise CallDidNotReturn("no return after %ss" % seconds)
+
+    old = signal.signal(signal.SIGALRM, on_alarm)
+    signal.alarm(seconds)
+    try:
+        return _outcome(thunk)
+    finally:
+        signal.alarm(0)
+        signal.signal(signal.SIGALRM, old)
+
+
 def count_lines(thunk, only_files=None, skip_module_frames=False):
     """Number of code_data line events one call takes (used to place an abort)."""
     n = [0]
